@@ -326,6 +326,14 @@ def main(argv):
                 ctx.disagreement("Lean failover model differs from HashClient", {"cfg": cfg, "servers": n, "events": [ev_text(e) for e in evs][:k + 1],
                                                                                  "impl": out[k] if k < len(out) else None, "model": got[k] if k < len(got) else None},
                                  theorem="C13_le_two_per_rt_window", tags=[])
+    # composed model HashClient ∘ Client (Pymc/Model/HashCall.lean): random histories of single-key calls with per-call scripts on the real
+    # HashClient over a scripted socket module, compared call by call (result, server, inner client object, bookkeeping state, sockets)
+    if ctx.lean.build_ok:
+        import hashcall_diff
+        ncalls, bad = hashcall_diff.differential(4000 if ctx.thorough else 600, rng, ctx.driver.batch)
+        ctx.count("composed-hash-model-calls", ncalls)
+        for b in bad[:5]:
+            ctx.disagreement("composed Lean model HashClient∘Client differs from the real HashClient", b, theorem="C13_hash_projection")
     ctx.extra["explored_op_steps"] = total_states
     ctx.assumptions = ["time is an integer number of ticks, constant during one public call", "'failing' = raising OSError (other errors do not mark a server)",
                        "routing is abstracted to a preference order (the rendezvous choice over the remaining set is C11/C12)"]
